@@ -34,6 +34,9 @@ type evidence struct {
 	KnownFindings []string
 	Unconfirmed   []string
 	Replays       []map[string]any
+	NativeAgree   int
+	NativeSkipped int
+	NativeDisagree []string
 }
 
 func newEvidence(id, tier string, seed int) *evidence {
@@ -124,7 +127,7 @@ func (e *evidence) write(wall float64, violations int) {
 	if len(samples) == 0 {
 		samples = []any{map[string]any{"note": "no path completed", "inconclusive": e.Inconclusive}}
 	}
-	exhaustive := e.truncated == 0 && e.unsupported == 0 && e.unknown == 0 && len(e.Inconclusive) == 0 && len(e.Unconfirmed) == 0
+	exhaustive := e.truncated == 0 && e.unsupported == 0 && e.unknown == 0 && len(e.Inconclusive) == 0 && len(e.Unconfirmed) == 0 && len(e.NativeDisagree) == 0
 	for _, h := range e.harnesses {
 		if h["aborted"] != "" {
 			exhaustive = false
@@ -133,7 +136,9 @@ func (e *evidence) write(wall float64, violations int) {
 	cov := map[string]any{
 		"states":                        e.paths,
 		"transitions":                   e.decisions,
-		"traces_validated_against_impl": len(e.Replays),
+		"traces_validated_against_impl": e.NativeAgree + len(e.Replays),
+		"native_differential": map[string]any{"sampled_paths_agreeing": e.NativeAgree, "sampled_paths_skipped_natively": e.NativeSkipped, "disagreements": e.NativeDisagree,
+			"what": "sampled symbolic paths (reservoir, seeded by VERIF_SEED) re-run against the real build under one model of their path condition; every assertion must pass natively too"},
 		"samples":                       samples,
 		"evaluations":                   e.paths,
 		"distinct_nontrivial":           e.nontrivial,
